@@ -644,6 +644,68 @@ def r18_debug_chain(body):
     return s, log
 
 
+def r19_strip_nested_items(body):
+    """R19: drop the `struct` / `impl` items declared at the start of a fn body (local helper types).  They have no run-time
+    effect where they are declared; every USE of them that remains in the statements must be removed by a declared
+    substitution of the contract file, otherwise Verus rejects the unit (unknown name).  The dropped impl bodies are NOT
+    verified (listed in the log)."""
+    log = []
+    s = body
+    i = 1   # after the opening brace
+    while True:
+        j = i
+        # skip whitespace, comments and outer attributes
+        while True:
+            k = _skip_ws(s, j)
+            tk = next_code(s, k)
+            if tk is None:
+                break
+            kind, a, b = tk
+            if kind == 'comment':
+                j = b
+                continue
+            if kind == 'punct' and s.startswith('#[', a):
+                j = match_delim(s, s.index('[', a)) + 1
+                continue
+            j = a
+            break
+        m = re.compile(r'(struct|impl)\b').match(s, j)
+        if not m:
+            break
+        # header end: first `{` or `;` outside () [] <>
+        d = 0
+        ang = 0
+        end = None
+        prev = ''
+        for kind, a, b in tokens(s, j):
+            if kind != 'punct':
+                prev = ''
+                continue
+            c = s[a]
+            if c in '([':
+                d += 1
+            elif c in ')]':
+                d -= 1
+            elif c == '<' and d == 0:
+                ang += 1
+            elif c == '>' and d == 0 and prev not in ('-', '=') and ang > 0:
+                ang -= 1
+            elif c == ';' and d == 0 and ang == 0:
+                end = a + 1
+                break
+            elif c == '{' and d == 0 and ang == 0:
+                end = match_delim(s, a) + 1
+                break
+            prev = c
+        if end is None:
+            raise RuleError('R19: nested item without end')
+        log.append('R19: dropped nested item `%s` (NOT verified)' % norm_ws(s[j:min(end, j + 90)]).split('{')[0].strip()[:80])
+        s = s[:i] + s[end:]
+    if not log:
+        raise RuleError('R19: no nested struct/impl items at the start of the body')
+    return s, log
+
+
 def ptr_model(body, arr, elem, names):
     """R17: raw pointers into ONE array, modelled as element indices.
 
@@ -793,6 +855,9 @@ SELFTEST = [
     (lambda b: ptr_model(b, 'self.0.ctx', 'Ctx', ['bh', 'r0', 'r1', 'nx']),
      '{ let bh = self.0.ctx.as_mut_ptr(); let mut r0 = bh.add(self.0.s); let mut r1 = bh.add(self.0.e); let mut bh: *mut Ctx; let mut nx: *mut Ctx; bh = r0; loop { nx = bh.add(1); (*bh).h.update(ch); (*nx).v = (*bh).v; r1 = r1.add(1); bh = nx; if bh >= r1 { break; } } }',
      ['{ let bh = 0usize; let mut r0 = verif_ptr_add(bh, self.0.s, self.0.ctx.len()); let mut r1 = verif_ptr_add(bh, self.0.e, self.0.ctx.len()); let mut bh: usize; let mut nx: usize; bh = r0; loop { nx = verif_ptr_add(bh, 1, self.0.ctx.len()); self.0.ctx[bh].h.update(ch); self.0.ctx[nx].v = self.0.ctx[bh].v; r1 = verif_ptr_add(r1, 1, self.0.ctx.len()); bh = nx; if bh >= r1 { break; } } }']),
+    (r19_strip_nested_items,
+     '{ /// doc\n struct E(u8); struct V<\'a, const N: usize> { block: &\'a [u8; N], } impl<\'a, const N: usize> V<\'a, N> { pub fn new(b: &\'a [u8; N]) -> Self { Self { block: b } } } impl core::fmt::Debug for E { fn fmt(&self, f: &mut F) -> R { if self.0 != 0 { a } else { b } } } if self.is_valid() { x } else { y } }',
+     ['{ if self.is_valid() { x } else { y } }']),
     (r18_debug_chain,
      '{ if v { f.debug_struct("X").field("a", &Self::A).field("s", &core::str::from_utf8(&b[..n as usize]).unwrap()).finish() } else { f.debug_struct("X").field("i", &true).finish() } }',
      ['{ if v { { let __dbg1 = &Self::A; let __dbg2 = &core::str::from_utf8(&b[..n as usize]).unwrap(); verif_debug_finish(f) } } else { { let __dbg1 = &true; verif_debug_finish(f) } } }']),
